@@ -1488,6 +1488,29 @@ impl<'t, 's> Exec<'t, 's> {
         if g.7 != a.cmp(&b) {
             bad.push("TextSize ordering".to_string());
         }
+        // OneIndexed: the row/column number type
+        let z = (a % 1000) as u32;
+        let g = guarded(|| {
+            let one = OneIndexed::from_zero_indexed(z);
+            (
+                one.get(),
+                one.to_zero_indexed(),
+                one.to_usize(),
+                one.to_zero_indexed_usize(),
+                OneIndexed::new(z + 1) == Some(one),
+                OneIndexed::new(0).is_none(),
+                one.saturating_add(2).get(),
+                one.saturating_sub(z + 5) == OneIndexed::MIN,
+                OneIndexed::MAX.saturating_add(1) == OneIndexed::MAX,
+                OneIndexed::try_from_zero_indexed(z as usize).ok() == Some(one),
+                OneIndexed::MIN.get(),
+                format!("{one}"),
+            )
+        })
+        .map_err(pc)?;
+        if g != (z + 1, z, z as usize + 1, z as usize, true, true, z + 3, true, true, true, 1, format!("{}", z + 1)) {
+            bad.push(format!("OneIndexed arithmetic for zero-based {z}: {:?}", g));
+        }
         // find_newline and LineEnding on the current window
         let w = &text[self.f..self.b];
         let fnl = guarded(|| find_newline(w)).map_err(pc)?;
@@ -1676,7 +1699,7 @@ pub fn execute(case: &Case, stats: &mut Stats) -> Outcome {
     // at least one iterator pull
     let nontrivial = (text.contains(['\n', '\r']) || !text.is_ascii()) && (ex.used_front || ex.used_back);
     if nontrivial {
-        ex.stats.distinct.insert(digest);
+        ex.stats.note_distinct(digest);
     }
     Outcome {
         digest,
